@@ -21,6 +21,9 @@ type HOp struct {
 	Pkt  *astits.Packet
 	Slot int // add(auto)/data on an auto stream: index of the auto stream (PID learnt at run time)
 	Auto bool
+	// SharedAF > 0: the caller keeps ONE PacketAdaptationField object (number SharedAF) and passes the same pointer to every
+	// such WriteData call, as the doc comment of WriteData anticipates (content = the adaptation field of the first such op)
+	SharedAF int
 }
 
 // HCall is what was observed for one operation.
@@ -60,7 +63,20 @@ func runHistory(ops []HOp, period int) *HistRun {
 	var streams []*hStream
 	var pcr uint16
 	auto := map[int]*hStream{}
+	shared := map[int]*astits.PacketAdaptationField{}
+	sharedContent := map[int]*astits.PacketAdaptationField{}
 	for k, op := range ops {
+		if op.Kind == "data" && op.SharedAF > 0 && op.Data.AdaptationField != nil {
+			if shared[op.SharedAF] == nil {
+				shared[op.SharedAF] = mon.Clone(op.Data.AdaptationField)
+				sharedContent[op.SharedAF] = mon.Clone(op.Data.AdaptationField)
+			}
+			// the oracle must compare with the content really passed
+			nd := *op.Data
+			nd.AdaptationField = mon.Clone(sharedContent[op.SharedAF])
+			op.Data = &nd
+			ops[k] = op
+		}
 		call := &HCall{Op: op, Start: len(tap.Buf)}
 		tap.Call = k
 		pid := op.PID
@@ -106,6 +122,9 @@ func runHistory(ops []HOp, period int) *HistRun {
 			case "data":
 				d := mon.Clone(op.Data)
 				d.PID = pid
+				if op.SharedAF > 0 && op.Data.AdaptationField != nil {
+					d.AdaptationField = shared[op.SharedAF] // the very same object as in earlier calls
+				}
 				call.N, call.Err = m.WriteData(d)
 			case "packet":
 				call.N, call.Err = m.WritePacket(mon.Clone(op.Pkt))
@@ -170,6 +189,7 @@ type HistOpts struct {
 	RichHeaders  bool
 	FewPIDs      bool
 	WritePktPIDs []uint16
+	ReuseAF      bool // the caller reuses one adaptation field object per PID across WriteData calls
 }
 
 var esPIDPool = []uint16{0x20, 0x21, 0x40, 0x41, 0x42, 0x2fa, 0x1ffe, 0x0fff, 0x1001, 0x0800} // disjoint from the automatic range 0x100.. so that the model can attribute PIDs before it has seen a PMT
@@ -411,7 +431,16 @@ func randomDataOp(r *rand.Rand, pid uint16, auto bool, slot int, o HistOpts) HOp
 			hdrLen = len(b)
 		}
 	}
-	if r.IntN(3) == 0 {
+	shared := 0
+	if o.ReuseAF && r.IntN(2) == 0 {
+		// a small adaptation field object (PCR / flags) kept by the caller for this PID and passed again and again
+		shared = 1 + int(pid)%7
+		d.AdaptationField = &astits.PacketAdaptationField{HasPCR: true, PCR: &astits.ClockReference{Base: int64(pid) * 1000, Extension: int64(pid % 300)}, RandomAccessIndicator: pid%2 == 0}
+		if r.IntN(2) == 0 {
+			// short units: the packet that carries the field needs stuffing
+			d.PES.Data = gen.Bytes(r, 1+r.IntN(160))
+		}
+	} else if r.IntN(3) == 0 {
 		d.AdaptationField = firstPacketAF(r, hdrLen, o.BigAF && r.IntN(4) == 0)
 	} else if r.IntN(3) == 0 && h.StreamID != 0xBE && h.StreamID != 0xBF {
 		// aim at the stuffing arithmetic: the last packet has exactly 0, 1, 2 or 3 bytes free
@@ -421,7 +450,7 @@ func randomDataOp(r *rand.Rand, pid uint16, auto bool, slot int, o HistOpts) HOp
 			copy(d.PES.Data, gen.Tag(pid, r.IntN(1<<20)))
 		}
 	}
-	return HOp{Kind: "data", PID: pid, Auto: auto, Slot: slot, Data: d}
+	return HOp{Kind: "data", PID: pid, Auto: auto, Slot: slot, Data: d, SharedAF: shared}
 }
 
 // readdAutoScenario: an explicit PID in the automatic range is written, removed, and handed out again by automatic assignment.
